@@ -313,3 +313,73 @@ def tight_stack(ctx, jobs, deltas=(8, 1, 0, -1), label='tight-stack', timetravel
     ctx.stats['distinct_nontrivial'] = ctx.stats.get('distinct_nontrivial', 0) + tally.get('ok', 0)
     ctx.say('%s: %s (programs %d)' % (label, tally, len(cases)))
     return smin, res
+
+
+# --------------------------------------------------------------------------- the verified core
+def core_suite(ctx, n, configs=((2, 100, False), (3, 40, True), (8, 12, False), (4, 30, False)), faults=0.05, label='core'):
+    """`core` correspondence: for generated programs of the core sub-language, Compiler/Core.lean's coreProg must be *identical*
+    to the assembled output of the real compiler (code, const, state, entry), every program must be recognised and satisfy the
+    hypotheses of C01.core_semantic_preservation, and Core.exec must agree with the reference machine.
+    Returns standard job tuples of the same programs so that the caller's differential run finds a concrete failing input when
+    the correspondence breaks."""
+    import gen_core
+    cases, jobs, srcs = [], [], {}
+    for i in range(n):
+        seed = ctx.rng.getrandbits(40)
+        src = gen_core.gen(seed, faults=faults)
+        w, s, un = configs[i % len(configs)]
+        cid = '%s%d_%d' % (label, i, seed)
+        try:
+            c = dump_ast.case(cid, src, [], w=w, s=s, unchecked=un, fuel=300000)
+        except Exception as e:
+            ctx.violations.append(dict(what='%s: valid core program rejected by the compiler: %s: %s' % (label, type(e).__name__, str(e)[:200]),
+                                       kind='REJECTED', source=src, args=[], config=dict(w=w, stack=s, unchecked=un)))
+            continue
+        k = dict(c); k['id'] = cid + '#K'; k['opts'] = c['opts'] + ['core', 'stackwords=%d' % s]
+        cases += [c, k]
+        srcs[cid] = (src, w, s, un)
+        jobs.append((cid, src, [], w, s, un, 300000))
+    res = hidlib.run_parallel(cases, chunk=80)
+    tally = {}
+    diffs, semdiffs = [], []
+    for cid, (src, w, s, un) in srcs.items():
+        r = res.get(cid + '#K', {}).get('core')
+        if r is None:
+            tally['missing'] = tally.get('missing', 0) + 1
+            continue
+        v = r.outcome.split(':')[0]
+        tally[v] = tally.get(v, 0) + 1
+        if r.outcome != 'ok':
+            diffs.append((src, dict(w=w, stack=s, unchecked=un), r.outcome[:600]))
+            continue
+        ref = res.get(cid, {}).get('src')
+        if ref is not None and r.trace != 'fuel' and ref.outcome == 'terminal':
+            if r.events != ref.events:
+                semdiffs.append((src, dict(w=w, stack=s, unchecked=un), r.trace[:200], ref.trace[:200]))
+            else:
+                tally['semantics_agree'] = tally.get('semantics_agree', 0) + 1
+    st = ctx.stats.setdefault('core_correspondence', {})
+    for k_, v_ in tally.items(): st[k_] = st.get(k_, 0) + v_
+    ctx.stats['evaluations'] = ctx.stats.get('evaluations', 0) + len(srcs)
+    if diffs:
+        st.setdefault('diff_samples', [d[2] for d in diffs[:2]])
+        ctx.breaks.append(dict(kind='correspondence', name='core: Compiler/Core.lean (coreProg) vs assembled hidc output',
+                               detail=repr(dict(program=diffs[0][0], config=diffs[0][1], first_difference=diffs[0][2]))[:3000]))
+    if semdiffs:
+        ctx.breaks.append(dict(kind='correspondence', name='core: Core.exec vs the reference machine',
+                               detail=repr(dict(program=semdiffs[0][0], config=semdiffs[0][1], core=semdiffs[0][2], reference=semdiffs[0][3]))[:3000]))
+    ctx.say('%s correspondence: %s' % (label, tally))
+    if diffs and not label.endswith('+'):
+        # the model and the compiler disagree: widen the search for a concrete failing input around the disagreeing programs
+        # (same programs at other word sizes and build modes, and a batch of fault-prone programs)
+        extra = []
+        for i, (src, cfg, _) in enumerate(diffs[:40]):
+            for w in (2, 4):
+                for un in (False, True):
+                    extra.append(('%sx%d_%d%d' % (label, i, w, un), src, [], w, cfg['stack'], un, 300000))
+        for i in range(200):
+            src = gen_core.gen(ctx.rng.getrandbits(40), faults=0.6)
+            extra.append(('%sy%d' % (label, i), src, [], ctx.rng.choice([2, 3, 4, 8]), 100, False, 300000))
+        jobs += extra
+        ctx.stats['core_correspondence']['extra_search_jobs'] = len(extra)
+    return jobs
